@@ -559,7 +559,7 @@ func (k *checker) checkFixed(prog []*cbref.Op, initial []byte, m *cbref.Result, 
 		buf := scratch[:len(initial):cp]
 		copy(buf, initial)
 		b := cryptobyte.NewFixedBuilder(buf)
-		r := runReal(prog, k.vals, b)
+		r := runReal(prog, k.vals, b, cp&1 == 1)
 		st.traces++
 		st.transitions += r.ops
 		st.counts["fixed_builder_runs"]++
@@ -567,6 +567,10 @@ func (k *checker) checkFixed(prog []*cbref.Op, initial []byte, m *cbref.Result, 
 		st.outcomes["fixed fit="+fmt.Sprint(fit)+" first="+first+" real="+r.kind]++
 		extra := func() map[string]any {
 			return map[string]any{"capacity": cp, "initial_len": len(initial), "needed": m.Peak, "real": r.kind, "real_panic": r.pval, "first_append_not_fitting": first}
+		}
+		if r.irregular != "" {
+			k.report("fixed builder: "+r.irregular, mode, prog, extra())
+			continue
 		}
 		if fit {
 			switch {
@@ -632,7 +636,7 @@ func (k *checker) check(family string, prog []*cbref.Op, trackState, full bool, 
 	// 1. zero-value Builder
 	m := cbref.Run(prog, k.vals, nil)
 	var b0 cryptobyte.Builder
-	r := runReal(prog, k.vals, &b0)
+	r := runReal(prog, k.vals, &b0, false)
 	st.evals++
 	st.traces++
 	st.transitions += r.ops
@@ -663,7 +667,8 @@ func (k *checker) check(family string, prog []*cbref.Op, trackState, full bool, 
 	m2 := cbref.Run(prog, k.vals, growPrefix)
 	ib := make([]byte, len(growPrefix), len(growPrefix)+3)
 	copy(ib, growPrefix)
-	r2 := runReal(prog, k.vals, cryptobyte.NewBuilder(ib))
+	copy(ib[len(ib):cap(ib)], "\xEE\xEE\xEE") // old contents in the spare capacity
+	r2 := runReal(prog, k.vals, cryptobyte.NewBuilder(ib), true) // and Bytes() queried between top-level operations
 	st.traces++
 	st.transitions += r2.ops
 	k.compareGrow("NewBuilder(prefix)", prog, &m2, &r2)
@@ -786,7 +791,7 @@ func (k *checker) familyA(label string, tLo, tHi int, sizes []int, reduced bool)
 // family B: nested chains around the boundaries; family C: every identifier octet
 // ---------------------------------------------------------------------------
 
-func (k *checker) familyB(maxDepth int, bounds []int, tag string) {
+func (k *checker) familyB(maxDepth int, bounds []int, tag string, explicit ...int) {
 	c := k.c
 	kinds := []cbref.Op{{Kind: cbref.LP8}, {Kind: cbref.LP16}, {Kind: cbref.LP24}, {Kind: cbref.LP32}, {Kind: cbref.ASN1}}
 	asn1Tags := []int{0x30, 0xA0, 0x04, 0x31, 0x6e}
@@ -818,6 +823,9 @@ func (k *checker) familyB(maxDepth int, bounds []int, tag string) {
 		for s := lo; s <= b+1; s++ {
 			sizeSet[s] = true
 		}
+	}
+	for _, s := range explicit {
+		sizeSet[s] = true
 	}
 	var sizes []int
 	for s := range sizeSet {
@@ -990,6 +998,15 @@ func run(c *vf.Ctx) {
 	phase("C")
 	k.familyQ24()
 	phase("Q24")
+	// E: content lengths on either side of the bit-7 / bit-15 tests and with zero / all-one
+	// low octets away from the 2^8 / 2^16 boundaries (the length is patched octet by octet)
+	eSizes := []int{0x1ff, 0x200, 0x201, 0x7ffe, 0x7fff, 0x8000, 0x8001, 0x80ff, 0x8100, 0xfeff, 0xff00, 0xff01, 0x100ff, 0x10100, 0x17fff, 0x18000, 0x1ffff, 0x20000}
+	if c.Thorough {
+		k.familyB(3, nil, "E", eSizes...)
+	} else {
+		k.familyB(2, nil, "E", eSizes...)
+	}
+	phase("E")
 	if c.Thorough {
 		k.familyB(4, []int{128, 256, 65536}, "B")
 		phase("B")
